@@ -113,7 +113,7 @@ func C03(r *drv.Run) {
 	if !quick(r) {
 		n, ntext = 200000, 12
 	}
-	r.Rule = "programs from the union of all generators (core language, regex literals, named loops, whole line/word/file, every amount clause, replace commands) x multi-line inputs derived from the program (newline-heavy alphabet, \\r\\n, some non-ASCII). Plus the exhaustive capture shapes of C02 (first alternatives that fail, abandoned iterations, named loops over inner loops) on all texts over {a,b} up to length 4; plus linear-time programs over long inputs (thousands of short lines, single lines of 6 000 and 70 000 bytes, CR LF line ends, matches spanning newlines; offsets beyond 65 536, line numbers beyond 2 000, columns beyond 5 000). Oracle: invariants recomputed from the input text alone on every reported match: bounds, Value == text[Start:End], order/non-overlap, consecutive MatchNumber (first number fixed by the amount clause), 1-based Line and byte Column of both ends from a newline index (columns: ASCII texts only), every string variable - recursively through named-loop maps - a substring of Value. Non-trivial = run returned >= 1 match; distinct by (program, text)."
+	r.Rule = "programs from the union of all generators (core language, regex literals, named loops, whole line/word/file, every amount clause, replace commands) x multi-line inputs derived from the program (newline-heavy alphabet, \\r\\n, some non-ASCII). Plus the exhaustive capture shapes of C02 (first alternatives that fail, abandoned iterations, named loops over inner loops) on all texts over {a,b} up to length 4, and its last-path shapes (an optional capture on the path tried last) on all texts over {a,b,c} up to length 4; plus linear-time programs over long inputs (thousands of short lines, single lines of 6 000 and 70 000 bytes, CR LF line ends, matches spanning newlines; offsets beyond 65 536, line numbers beyond 2 000, columns beyond 5 000). Oracle: invariants recomputed from the input text alone on every reported match: bounds, Value == text[Start:End], order/non-overlap, consecutive MatchNumber (first number fixed by the amount clause), 1-based Line and byte Column of both ends from a newline index (columns: ASCII texts only), every string variable - recursively through named-loop maps - a substring of Value. Non-trivial = run returned >= 1 match; distinct by (program, text)."
 	r.Assumptions = []string{
 		"single-command programs (results of several commands are concatenated; C13 covers that)",
 		"column claim checked on ASCII texts only, as the property says",
@@ -209,9 +209,16 @@ func C03(r *drv.Run) {
 	// that is no part of the final match
 	shapes := enumCaptureShapes()
 	shapeTexts := allTexts("ab", 4)
+	lp, lpTexts := lastPathShapes()
+	nAB := len(shapes)
+	shapes = append(shapes, lp...)
 	r.Exec(len(shapes), drv.ExecOpts{Batch: 100}, func(i int) *drv.Item {
-		if quick(r) && (uint64(i)+r.Seed)%2 != 0 {
+		if i < nAB && quick(r) && (uint64(i)+r.Seed)%2 != 0 {
 			return nil
+		}
+		shapeTexts := shapeTexts
+		if i >= nAB {
+			shapeTexts = lpTexts
 		}
 		p := shapes[i]
 		src := gen.RenderProgram(p)
